@@ -317,6 +317,15 @@ class Extractor:
             self.assumed.append(meta)
             return
         body = strip_comments(text[loc.body_open:loc.body_close + 1])
+        ops, nclos = body_ops(body)
+        meta['ops'] = sorted(ops)
+        meta['closures'] = nclos
+        meta['ops_key'] = ops_key(meta, opts.get('nth', '1'))
+        base = baseline_ops()
+        if base is not None and meta['ops_key'] in base:
+            b = base[meta['ops_key']]
+            meta['new_ops'] = sorted(ops - set(b['ops']))
+            meta['new_closures'] = max(0, nclos - b['closures'])
         body, fired = rewrites.apply(body, rules)
         for k, v in sig_fired.items():
             fired[k] = fired.get(k, 0) + v
@@ -410,6 +419,39 @@ class Extractor:
 
 
 BASELINE_FNS = os.path.join(VERIF, 'units', 'baseline_fns.json')
+BASELINE_OPS = os.path.join(VERIF, 'units', 'baseline_ops.json')
+
+_KEYWORDS = set('if while for match return loop let fn in as else move ref mut unsafe where impl struct enum type use pub const static'.split())
+_OPS_CACHE = {}
+
+
+def body_ops(body):
+    """Operations a function body uses that a proof has to know a meaning for: names applied to
+    arguments (function / method / constructor calls), macros, and closures (counted).  Taken from
+    the comment-free source text of the body, before any rewrite rule."""
+    m = rustscan.mask(body)
+    ops = set()
+    for mm in re.finditer(r'\b([A-Za-z_]\w*)\s*(?:::\s*<[^<>()]*(?:<[^<>()]*>[^<>()]*)*>\s*)?\(', m):
+        if mm.group(1) not in _KEYWORDS:
+            ops.add(mm.group(1))
+    for mm in re.finditer(r'\b([A-Za-z_]\w*)!\s*[\(\[\{]', m):
+        ops.add(mm.group(1) + '!')
+    closures = len(re.findall(r'(?:[(,={;]|\bmove|\breturn)\s*(?:move\s+)?\|', m))
+    return ops, closures
+
+
+def baseline_ops():
+    if 'b' not in _OPS_CACHE:
+        import json
+        try:
+            _OPS_CACHE['b'] = json.load(open(BASELINE_OPS))
+        except Exception:
+            _OPS_CACHE['b'] = None
+    return _OPS_CACHE['b']
+
+
+def ops_key(meta, nth):
+    return '%s|%s|%s|%s' % (meta['file'], meta.get('impl') or '', meta['fn'], nth)
 
 
 def file_functions(text):
